@@ -175,6 +175,43 @@ end
 theorem C19_filter_ids (S : Nat → Bool) (t : T) : iterate (filterIds S t) = (iterate t).filter S :=
   iterate_filter S t
 
+/-! repetition: filtering an already filtered suite (`--load-list` on a suite that a caller filtered before; the
+placeholders of removed tests are themselves suites and are filtered again) -/
+mutual
+theorem filter_filter (S₁ S₂ : Nat → Bool) : ∀ t : T,
+    filterIds S₂ (filterIds S₁ t) = filterIds (fun x => S₁ x && S₂ x) t
+  | .case id => by
+      simp only [filterIds]
+      by_cases h₁ : S₁ id = true <;> by_cases h₂ : S₂ id = true <;> simp [filterIds, filterL, h₁, h₂]
+  | .suite k cs => by
+      simp only [filterIds]
+      rw [filterL_filterL S₁ S₂ cs]
+theorem filterL_filterL (S₁ S₂ : Nat → Bool) : ∀ ts : List T,
+    filterL S₂ (filterL S₁ ts) = filterL (fun x => S₁ x && S₂ x) ts
+  | [] => by simp [filterL]
+  | t :: ts => by
+      simp only [filterL]
+      rw [filter_filter S₁ S₂ t, filterL_filterL S₁ S₂ ts]
+end
+
+/-- C19 (filter, repetition): filtering twice is filtering once by the intersection — the *same tree*, placeholders
+included, not merely the same ids; so the order of two filters does not matter and a filter applied again changes
+nothing. -/
+theorem C19_filter_twice (S₁ S₂ : Nat → Bool) (t : T) :
+    filterIds S₂ (filterIds S₁ t) = filterIds (fun x => S₁ x && S₂ x) t
+    ∧ filterIds S₂ (filterIds S₁ t) = filterIds S₁ (filterIds S₂ t)
+    ∧ filterIds S₁ (filterIds S₁ t) = filterIds S₁ t := by
+  refine ⟨filter_filter S₁ S₂ t, ?_, ?_⟩
+  · rw [filter_filter, filter_filter]
+    congr 1; funext x; exact Bool.and_comm _ _
+  · rw [filter_filter]
+    congr 1; funext x; exact Bool.and_self _
+
+-- non-vacuity: the two filters overlap on one test of a nested suite, the custom suite keeps its class
+example : filterIds (fun x => x != 1) (filterIds (fun x => x != 3) (.suite .plain [.case 1, .suite .custom [.case 2, .case 3]]))
+    = .suite .plain [.suite .plain [], .suite .custom [.case 2, .suite .plain []]] := by
+  simp [filterIds, filterL]
+
 mutual
 theorem rel_filter (S : Nat → Bool) : ∀ t : T, rel S t (filterIds S t) = true
   | .case id => by
